@@ -1391,3 +1391,56 @@ def position_param_truthiness(ctx: Ctx, rule: str = "position-truthiness", sites
         ctx.violated(rule, where, text, "`is not None` (position 0 is the first element)", "the first row / column is treated as 'no position': whatever is done per selected position is skipped for it, and moves with the display order")
     if not hits:
         ctx.held(rule, "partition helpers taking a position", f"{n} parameter bindings to loop positions, none truth-tested", "", "controls recognised")
+
+
+def type_resolution_table(ctx: Ctx, rule: str = "type-resolution"):
+    """Which DIMENSION_TYPE a categorical dimension of the response gets (`Dimensions.dimension_type`, executed over model
+    dimension dicts): a categorical ANY of whose categories carries a "date" is a categorical date - wherever the dated
+    categories stand, whether or not an undated ("Baseline") or missing category precedes them; the logical [1, 0, -1]
+    pattern and array sub-references take precedence.  The wave-difference rule, the population selection and smoothing
+    all switch on this type."""
+    from ..dectab import DTop, ModelInterp, Raises, exec_function
+
+    ci = ctx.repo.cls("dimension.py", "Dimensions")
+    m = ctx.repo.lookup(ci, "dimension_type")
+    where = "dimension.py::Dimensions.dimension_type [categorical]"
+    if m is None:
+        ctx.undecided(rule, where, "member not found", "")
+        return
+    D = lambda i, **kw: dict({"id": i, "name": f"c{i}"}, **kw)
+    cases = [
+        ("every category dated", [D(1, date="2020-01"), D(2, date="2020-02")], None, "CAT_DATE"),
+        ("an undated first category, dated ones after it", [D(1), D(2, date="2020-01"), D(3, date="2020-02")], None, "CAT_DATE"),
+        ("a missing undated category first", [D(-1, missing=True), D(1, date="2020-01"), D(2, date="2020-02")], None, "CAT_DATE"),
+        ("dated categories, an undated one last", [D(1, date="2020-01"), D(2, date="2020-02"), D(3)], None, "CAT_DATE"),
+        ("no category dated", [D(1), D(2)], None, "CAT"),
+        ("no categories", [], None, "CAT"),
+        ("logical pattern", [D(1, selected=True), D(0), D(-1, missing=True)], None, "LOGICAL"),
+        ("logical pattern with sub-references", [D(1, selected=True), D(0), D(-1, missing=True)], ["x"], "MR_CAT"),
+        ("categories of an array", [D(1), D(2)], ["x"], "CA_CAT"),
+    ]
+    bad, n = [], 0
+    for label, cats, subrefs, want in cases:
+        dd = {"type": {"class": "categorical", "categories": cats}, "references": ({"subreferences": subrefs} if subrefs else {})}
+
+        def atoms(x):
+            if isinstance(x, ast.Attribute) and isinstance(x.value, ast.Name) and x.value.id == "DT":
+                return x.attr
+            raise KeyError
+
+        it = ModelInterp(atoms, {})
+        it.methods = lambda name: (lambda mm: mm.node if mm is not None and mm.kind in ("method", "staticmethod", "classmethod") else None)(ctx.repo.lookup(ci, name))
+        try:
+            got = exec_function(it, m.node, {"dimension_dict": dd})
+        except Raises as r:
+            bad.append(f"{label}: raises {r.etype}")
+            continue
+        except DTop as t_:
+            ctx.undecided(rule, where, "DECTAB: " + str(t_), "type table of categorical dimensions")
+            return
+        n += 1
+        if got != want:
+            bad.append(f"{label}: {got} (specified {want})")
+    ctx.count("categorical type-resolution cases", n)
+    ctx.ob(rule, where, bad[:3] or f"{n} model dimensions", "categorical date iff some category carries a date; logical pattern and array sub-references first", not bad,
+           "a wave variable taken for a plain categorical is not smoothed (and its differences / population estimates follow the plain rules)")
